@@ -46,6 +46,10 @@ var gkinds = map[string][]string{
 	// runs for a while and finishes well before the deadline: unaffected too,
 	// whatever its siblings do meanwhile
 	"slowok": {"ok 1", "exec hsleep 300ms p", "ok 4", "mkdir done"},
+	// a background program that shrugs off SIGQUIT and exits on SIGINT, next to a
+	// foreground command blocked until the deadline: the end-of-script clean-up
+	// must still stop it
+	"bgquitproof": {"ok 1", "exec hquitproof q &", "waitq", "exec hpid p 0 20", "ok 3"},
 	// exits at about the moment the context expires
 	"edge": {"ok 1", "exec hsleep EDGE p", "ok 3"},
 	// terminal input larger than the pty buffer, given to a program that never reads it
@@ -82,6 +86,7 @@ type gobs struct {
 	effects map[string][]string
 	last    map[string]time.Time // time of the script's latest probe line
 	pid     map[string]int
+	pid2    map[string]int // a background helper of the script
 	sig     map[string]string
 	done    map[string]bool
 	mu      sync.Mutex
@@ -91,7 +96,7 @@ var gseq int64
 var gmu sync.Mutex
 
 func blocking(kind string) bool {
-	return kind != "early" && kind != "edge"
+	return kind != "early" && kind != "edge" && kind != "slowok"
 }
 
 // warmFarDeadline runs one trivial script under a deadline 200 s away. The grid's
@@ -142,7 +147,7 @@ func runGrid(root string, g gcase) string {
 		}
 		files = append(files, tsh.WriteScript(dir, fmt.Sprintf("s%d%s.txt", i, k), text))
 	}
-	obs := &gobs{effects: map[string][]string{}, last: map[string]time.Time{}, pid: map[string]int{}, sig: map[string]string{}, done: map[string]bool{}}
+	obs := &gobs{effects: map[string][]string{}, last: map[string]time.Time{}, pid: map[string]int{}, pid2: map[string]int{}, sig: map[string]string{}, done: map[string]bool{}}
 	t := tsh.NewT("goexit", false)
 	ended := map[string]time.Time{}
 	var wg sync.WaitGroup
@@ -186,6 +191,21 @@ func runGrid(root string, g gcase) string {
 			},
 			// watch: at the end of the run (before the work directory goes away) note
 			// the pid file, the signal record and the marker directory
+			// waitq: the background helper has written its pid to "q"
+			"waitq": func(ts *testscript.TestScript, neg bool, args []string) {
+				name := ts.Name()
+				for deadline := time.Now().Add(5 * time.Second); time.Now().Before(deadline); time.Sleep(time.Millisecond) {
+					if data, err := os.ReadFile(ts.MkAbs("q")); err == nil {
+						if pid, _ := strconv.Atoi(strings.TrimSpace(string(data))); pid > 0 {
+							obs.mu.Lock()
+							obs.pid2[name] = pid
+							obs.mu.Unlock()
+							return
+						}
+					}
+				}
+				ts.Fatalf("waitq: the background helper never wrote its pid")
+			},
 			"watch": func(ts *testscript.TestScript, neg bool, args []string) {
 				name := ts.Name()
 				wd := ts.MkAbs(".")
@@ -263,6 +283,13 @@ func runGrid(root string, g gcase) string {
 		if pid > 0 && tsh.PidAlive(pid) {
 			syscall.Kill(pid, syscall.SIGKILL)
 			return fmt.Sprintf("child-left-behind: script %s (%s): its child process %d is still alive after the run", name, k, pid)
+		}
+		obs.mu.Lock()
+		pid2 := obs.pid2[name]
+		obs.mu.Unlock()
+		if pid2 > 0 && tsh.PidAlive(pid2) {
+			syscall.Kill(pid2, syscall.SIGKILL)
+			return fmt.Sprintf("child-left-behind: script %s (%s): its background process %d is still alive after the run", name, k, pid2)
 		}
 		eff := strings.Join(obs.effects[name], ",")
 		switch {
@@ -367,6 +394,7 @@ func gridCases(th bool) []gcase {
 	}
 	// a deadline far enough away for the grace period to grow beyond its floor
 	out = append(out, gcase{[]string{"graceful3"}, 10000, false, false}, gcase{[]string{"stubborn", "early"}, 10000, false, false})
+	out = append(out, gcase{[]string{"bgquitproof"}, 1500, false, false}, gcase{[]string{"early", "bgquitproof"}, 1500, true, false})
 	out = append(out, gcase{[]string{"ttyblock"}, 600, false, false})
 	return out
 }
